@@ -29,7 +29,9 @@ RULE = ('histories: a device with 2-3 objects drawn from the 63 registered objec
         '_values of every object), plus two fixed scenarios (array of bit strings; index 0 of arrays of strings/enumerations through RPM).  '
         'direct only: 120 (quick) histories on the commandable *CmdObject classes of local/object.py: commands and relinquishes at '
         'priorities none/1..16, wrong-typed commands, each followed by reads of presentValue, priorityArray (whole, [0], [p], [17]) and '
-        'relinquishDefault against a priority-array oracle.  non-trivial = the history has at least one acknowledged write and one refused request; '
+        'relinquishDefault against a priority-array oracle; and one device hosting, for ten object types, four objects of equal '
+        'objectType and different classes (registered, all-mutable, commandable, variant property set) asked with all/required/optional '
+        'alone and pairwise in both orders.  non-trivial = the history has at least one acknowledged write and one refused request; '
         'distinct by (device, request list).')
 TRUSTED = ['model coq/theories/Obj.v written by hand after object.py Property.ReadProperty/WriteProperty, service/object.py, '
            'constructeddata.py ArrayOf/Any.cast_out, app.py Application.indication; tie = correspondence',
@@ -678,9 +680,15 @@ def digest(l):
 def new_history(rng, bench, nobj=None):
     bench.clear()
     types = sorted(classes())
+    prev = None
     for k in range(nobj or rng.randint(2, 3)):
-        otype = rng.choice(types)
-        bench.add(build_object(rng, otype, k + 10, mutable=rng.random() < 0.8, fill=rng.choice([0.12, 0.25, 0.45])))
+        if prev is not None and rng.random() < 0.3:
+            # same object type, the other class (registered class next to its all-mutable subclass)
+            otype, mutable = prev[0], not prev[1]
+        else:
+            otype, mutable = rng.choice(types), rng.random() < 0.8
+        prev = (otype, mutable)
+        bench.add(build_object(rng, otype, k + 10, mutable=mutable, fill=rng.choice([0.12, 0.25, 0.45])))
 
 
 _BENCH = []
@@ -967,7 +975,15 @@ def check_rpm(bn, d, rep, fail):
                         fail('rpm-selector-omits-property', d, ref=[pid, idx], prop=q)
                         return
         if k != len(els):
-            fail('rpm-extra-elements', d)
+            robj2 = None
+            for o2 in [bn.dev.localDevice] + list(bn.objects):
+                if oid_num(o2.objectIdentifier) == onum:
+                    robj2 = o2
+            own = {pid_num(q): p for q, p in robj2._properties.items()} if robj2 is not None else {}
+            if els[k][0] in own and any(kind == 'special' for kind, _, _, _ in per):
+                fail('rpm-selector-includes-unselected-property', d, prop=els[k][0], optional=bool(own[els[k][0]].optional))
+            else:
+                fail('rpm-extra-elements', d)
             return
 
 
@@ -1333,7 +1349,7 @@ def rpm_index0_direct(failures, stats):
     bn.clear()
 
 
-def rpm_index0_one(bn, specs, failures, stats):
+def rpm_index0_one(bn, specs, failures, stats, scenario='rpm-index-0'):
     e = B()
     P, C, A = e['P'], e['C'], e['A']
     req = A.ReadPropertyMultipleRequest(listOfReadAccessSpecs=[
@@ -1346,7 +1362,7 @@ def rpm_index0_one(bn, specs, failures, stats):
     d['reply'] = rep[:60]
 
     def fail(kind, d=d, **kw):
-        failures.append(dict({'kind': kind, 'scenario': 'rpm-index-0', 'op': d}, **kw))
+        failures.append(dict({'kind': kind, 'scenario': scenario, 'op': d}, **kw))
     check_rpm(bn, d, rep, fail)
     # and the raw tags: index 0 must be one application Unsigned tag carrying the length
     r = io.ioResponse
@@ -1362,6 +1378,89 @@ def rpm_index0_one(bn, specs, failures, stats):
                         fail('rpm-index-0-not-the-length', prop=el.propertyIdentifier, tags=str(tags))
 
 
+_VARIANTS = {}
+PAIR_TYPES = ['analogValue', 'binaryValue', 'multiStateValue', 'integerValue', 'characterstringValue', 'largeAnalogValue',
+              'positiveIntegerValue', 'octetstringValue', 'analogOutput', 'multiStateOutput']
+CMD_OF = {'analogValue': 'AnalogValueCmdObject', 'binaryValue': 'BinaryValueCmdObject', 'multiStateValue': 'MultiStateValueCmdObject',
+          'integerValue': 'IntegerValueCmdObject', 'characterstringValue': 'CharacterStringValueCmdObject',
+          'largeAnalogValue': 'LargeAnalogValueCmdObject', 'positiveIntegerValue': 'PositiveIntegerValueCmdObject',
+          'octetstringValue': 'OctetStringValueCmdObject', 'analogOutput': 'AnalogOutputCmdObject',
+          'multiStateOutput': 'MultiStateOutputCmdObject'}
+
+
+def variant_class(otype):
+    """a class of the same objectType with another property set: a third of the properties dropped, optional flags inverted
+    on every other remaining one"""
+    if otype not in _VARIANTS:
+        O = B()['O']
+        cls, M = classes()[otype]
+        props = []
+        for i, (pid, p) in enumerate(cls._properties.items()):
+            if pid in KEEP or i % 3 == 0:
+                continue
+            props.append(O.Property(pid, p.datatype, None, optional=(not p.optional) if i % 2 else p.optional, mutable=True))
+        V = type('Var' + cls.__name__, (O.Object,), {'objectType': otype, 'properties': props})
+        O.register_object_type(V, vendor_id=996)
+        _VARIANTS[otype] = V
+    return _VARIANTS[otype]
+
+
+def fill_object(K, rng, otype, inst, fill, skip=(), **fixed):
+    kw = dict(fixed)
+    for pid, p in K._properties.items():
+        if pid in KEEP or pid in skip or pid in kw:
+            continue
+        if rng.random() < fill:
+            v = safe_gen(p.datatype, rng)
+            if v is not None:
+                kw[pid] = v
+    return K(objectIdentifier=(otype, inst), objectName='%s-%d' % (otype, inst), **kw)
+
+
+def same_type_pairs_direct(rng, failures, stats):
+    """one device hosting, per object type, objects of equal objectType and different classes (the registered class, its
+    all-mutable subclass, the commandable class of local/object.py, a variant class with another property set and other
+    optional flags); the selectors all/required/optional are asked of each, alone and two objects per request in both
+    orders, the class asked first rotating with type and selector; every element is compared with ReadProperty of that
+    property on that object and the membership with the object's own _properties / optional flags (check_rpm)"""
+    e = B()
+    P = e['P']
+    bn = bench()
+    bn.clear()
+    groups = []
+    for ti, otype in enumerate(PAIR_TYPES):
+        cls, M = classes()[otype]
+        K = cmd_classes()[CMD_OF[otype]]
+        dt = K._properties['presentValue'].datatype
+        rd = rng.randint(1, 3) if otype.startswith('multiState') else valgen.gen_atomic(dt, rng)
+        extra = {'numberOfStates': 5} if otype.startswith('multiState') else {}
+        objs = [fill_object(cls, rng, otype, 31, 0.5),
+                fill_object(M, rng, otype, 32, 0.5),
+                fill_object(K, rng, otype, 33, 0.4, skip=('presentValue', 'priorityArray', 'relinquishDefault', 'minimumOnTime', 'minimumOffTime'),
+                            presentValue=rd, relinquishDefault=rd, **extra),
+                fill_object(variant_class(otype), rng, otype, 34, 0.6)]
+        for o in objs:
+            bn.add(o)
+        groups.append((ti, objs))
+    sels = ['required', 'optional', 'all']
+    for ti, objs in groups:
+        for si, sel in enumerate(sels):
+            order = objs[(ti + si) % 4:] + objs[:(ti + si) % 4]
+            for o in order:                                   # each object alone, rotating which class is asked first
+                rpm_index0_one(bn, [(o.objectIdentifier, [(sel, None)])], failures, stats, scenario='same-type-pairs')
+            for a in range(4):                                # two objects of the type in one request, both orders
+                for b in ((a + 1) % 4, (a + 3) % 4):
+                    if a != b:
+                        rpm_index0_one(bn, [(objs[a].objectIdentifier, [(sel, None)]), (objs[b].objectIdentifier, [(sel, None), ('presentValue', None)])],
+                                       failures, stats, scenario='same-type-pairs')
+        # all three selectors in one specification, and with an array index
+        for o in objs:
+            rpm_index0_one(bn, [(o.objectIdentifier, [('required', None), ('optional', None), ('all', None)])], failures, stats,
+                           scenario='same-type-pairs')
+            rpm_index0_one(bn, [(o.objectIdentifier, [('required', 0)])], failures, stats, scenario='same-type-pairs')
+    bn.clear()
+
+
 def direct(rng, tier, focus=()):
     import collections
     B(); classes()
@@ -1375,6 +1474,7 @@ def direct(rng, tier, focus=()):
     canonical_known(failures, stats)
     bitstring_array_direct(failures, stats)
     rpm_index0_direct(failures, stats)
+    same_type_pairs_direct(rng, failures, stats)
     cseeds = [rng.getrandbits(48) for _ in range(600 if tier == 'thorough' else 120)]
     for hs in cseeds:
         run_cmd_history(hs, failures, stats)
